@@ -35,6 +35,10 @@ What is proved:
   handled its first message: the host is never executed and its token never leaves; with the other order (and the
   gate) the host is requested on every schedule. `host_requested_partial` is the exact excluding hypothesis for any
   facts (at quiescence the host is unreached, waiting or done unless a cancel was accepted first).
+* `handover_inactive`, `handover_inert` / `C10_counterexample_late_reset` — a dichotomy in the order of the answer
+  relay's `active := 0` and `out <- rsp` (fact `resetFirst`): reset first (the code today) — once the token holds
+  the answer no event reaches a boundary event, on EVERY schedule, not only at quiescence; reset afterwards — the
+  host has completed, the normal flow has continued, and an event delivered now still continues the exception flow.
 * `exception_progress` / `C10_counterexample_no_once` — the `cancellation` once is what keeps a second interrupting
   listener from waiting forever for a verdict of an activity whose run loop has exited.
 -/
